@@ -475,11 +475,16 @@ def render_batch(fmt: str, cases: Sequence[Dict[str, Any]]) -> List[Dict[str, An
                 raise MachineryError("generated docstring cannot be written as a raw triple-quoted string")
             builder.addModuleString(f'r"""\n{body}\n"""\nxc = 1\n', f"mm{c['id']}")
     builder.buildModules()
+    # messages of the build phase (class / module docstrings are parsed there), by the object they are about
+    by_obj: Dict[str, List[str]] = {}
+    for (_, m) in system.log:
+        for name in re.findall(r"\bm\.o\d+\b|\bmm\d+\b", m.split(": ", 1)[0]):
+            by_obj.setdefault(name, []).append(m)
     res = []
     for c in cases:
         full = f"mm{c['id']}" if c["host"] == "module" else f"m.o{c['id']}"
         obj = system.allobjects[full]
-        build_log = [m for (_, m) in system.log if re.search(rf"\b{re.escape(full)}\b", m)]
+        build_log = by_obj.get(full, [])
         n0 = len(system.log)
         html = flatten(epydoc2stan.format_docstring(obj))
         attr_html = {}
@@ -656,3 +661,138 @@ def run_documents(ctx: Ctx, recs: List[Dict[str, Any]], templates: Dict[str, Any
     nproc = max(1, min(os.cpu_count() or 4, 16, len(tasks)))
     with mp.get_context("fork").Pool(nproc) as pool:
         return pool.map(work, tasks, chunksize=1)
+
+
+# =============================================================================== Epytext.tla <-> epytext.parse
+EP_CFG = """SPECIFICATION Spec
+CONSTANTS MaxTokens = {n}
+          Indents = {indents}
+          Bullets = {bullets}
+          Levels = {levels}
+CONSTRAINT Emit
+INVARIANT Conserved
+INVARIANT NoCrash
+INVARIANT NoTwoNone
+"""
+UNDERLINE = "=-~"
+BULLET_TEXT = {"u": "-", "o1": "1.", "o2": "2."}
+
+
+def ep_render(toks: Sequence[Dict[str, Any]]) -> str:
+    """Epytext source whose token stream is `toks` (token k carries the content number k)."""
+    lines = ["", ""]                       # no token starts on line 1 (see Epytext.tla header)
+    k = 0
+    while k < len(toks):
+        t = toks[k]
+        nxt = toks[k + 1] if k + 1 < len(toks) else None
+        n = k + 1
+        lit_after = lambda j: "::" if j + 1 < len(toks) and toks[j + 1]["tag"] == "lit" else ""
+        pad = " " * max(t["ind"], 0)
+        if t["tag"] == "bullet":
+            b = BULLET_TEXT.get(t["kind"]) or f"@f{n}:"
+            if nxt is not None and nxt["tag"] == "para":
+                if nxt["ind"] < 0:
+                    lines.append(f"{pad}{b} p{n + 1}{lit_after(k + 1)}")
+                else:
+                    lines.append(f"{pad}{b} p{n + 1}")
+                    lines.append(" " * nxt["ind"] + f"q{n + 1}{lit_after(k + 1)}")
+                k += 1
+            else:
+                lines.append(f"{pad}{b}")
+        elif t["tag"] == "para":
+            lines.append(f"{pad}p{n}{lit_after(k)}")
+        elif t["tag"] == "heading":
+            lines.append(f"{pad}h{n}")
+            lines.append(pad + UNDERLINE[t["level"]] * len(f"h{n}"))
+        elif t["tag"] == "lit":
+            lines.append(f"{pad}  l{n}")
+        elif t["tag"] == "doctest":
+            lines.append(f"{pad}>>> d{n}")
+        else:
+            raise AssertionError(t)
+        lines.append("")
+        k += 1
+    return "\n".join(lines)
+
+
+REAL_TAG = {"para": "para", "heading": "heading", "literalblock": "lit", "doctestblock": "doctest", "bullet": "bullet"}
+
+
+def ep_real(text: str) -> Dict[str, Any]:
+    """What the real tokenizer and the real parse() make of `text`."""
+    from pydoctor.epydoc.markup import epytext, ParseError
+    terrs: List[Any] = []
+    rtoks = [[REAL_TAG[t.tag], -1 if t.indent is None else t.indent] for t in epytext._tokenize(text.expandtabs(), terrs)]
+    errs: List[Any] = []
+    crash = None
+    tree = None
+    try:
+        tree = epytext.parse(text, errs)
+    except ParseError:
+        pass
+    except Exception as e:                # noqa: BLE001 - what escapes parse() is the observation
+        crash = f"{type(e).__name__}: {e}"
+    flat: List[List[Any]] = []
+
+    def num(s: str) -> int:
+        m = re.search(r"\d+", s)
+        return int(m.group()) if m else 0
+
+    def walk(e: Any, d: int) -> None:
+        tag = e.tag
+        if tag in ("para", "heading", "literalblock", "doctestblock"):
+            flat.append([d, tag, num(" ".join(epytext.gettext(e)))])
+            return
+        if tag == "field":
+            flat.append([d, tag, num(" ".join(epytext.gettext(e.children[0])))])
+        else:
+            flat.append([d, tag, 0])
+        for c in e.children:
+            if not isinstance(c, str) and c.tag not in ("tag", "arg"):
+                walk(c, d + 1)
+
+    if tree is not None:
+        walk(tree, 0)
+    return {"tokens": rtoks, "tree": flat if tree is not None else None, "crash": crash,
+            "errs": [e._descr if hasattr(e, "_descr") else str(e) for e in errs],
+            "tokenizer_errs": [str(e) for e in terrs]}
+
+
+def ep_check(args: List[Dict[str, Any]]) -> Dict[str, Any]:
+    """One batch of Epytext.tla terminal records against the real code.  Runs in a worker process."""
+    out: Dict[str, Any] = {"n": 0, "unrealisable": 0, "bad": [], "drift": [], "with_errors": 0, "crash": 0,
+                           "fields_not_last": [], "sample": None}
+    for rec in args:
+        toks = rec["toks"]
+        text = ep_render(toks)
+        real = ep_real(text)
+        if real["tokens"] != [[t["tag"], t["ind"]] for t in toks] or real["tokenizer_errs"]:
+            out["unrealisable"] += 1          # the rendering does not tokenize to this stream: not an input of the model
+            if len(out["drift"]) < 3 and out["unrealisable"] <= 3:
+                out.setdefault("unrealisable_examples", []).append({"toks": toks, "text": text, "real": real["tokens"]})
+            continue
+        out["n"] += 1
+        content = [k + 1 for k, t in enumerate(toks) if not (t["tag"] == "bullet" and t["kind"] != "f")]
+        # ---- verdict (property): no fatal error => every content-bearing token is in the tree, once, in order
+        if real["crash"] is None and not real["errs"]:
+            got = [x[2] for x in real["tree"] if x[1] in ("para", "heading", "literalblock", "doctestblock", "field")]
+            if got != content:
+                out["bad"].append({"invariant": "StructurerConserves", "toks": toks, "input": text, "expected": content,
+                                   "observed": got, "tree": real["tree"]})
+        else:
+            out["with_errors"] += 1
+        if real["crash"]:
+            out["crash"] += 1
+        # ---- conformance (model vs code)
+        mtree = [[n["d"], n["tag"], 0 if n["tag"] == "li" else n["id"]] for n in rec["tree"]]
+        fatal = bool(rec["errs"])
+        same = (bool(real["crash"]) == rec["crash"]) and (rec["crash"] or real["errs"] == rec["errs"]) and \
+               (fatal or rec["crash"] or real["tree"] == mtree)
+        if not same:
+            out["drift"].append({"toks": toks, "input": text, "model": {"tree": mtree, "errs": rec["errs"], "crash": rec["crash"]},
+                                 "real": {"tree": real["tree"], "errs": real["errs"], "crash": real["crash"]}})
+        if not rec["fieldsLast"] and len(out["fields_not_last"]) < 50:
+            out["fields_not_last"].append(text)
+        if out["sample"] is None and len(toks) >= 3 and not fatal:
+            out["sample"] = {"tokens": toks, "epytext": text, "tree": real["tree"]}
+    return out
